@@ -248,8 +248,8 @@ async fn parses(env: &mut VEnv, code: &str) -> Option<usize> {
     }
 }
 
-/// The `sh -c` run done piecewise: the units are fed **one at a time through separate
-/// `read_eval_loop` calls on the same environment** (a unit that does not parse on its own under the
+/// The `sh -c` run done piecewise: the lines are fed **one at a time through separate
+/// `read_eval_loop` calls on the same environment** (a line that does not parse on its own under the
 /// environment of that moment is joined with the following ones first).  Every call configures its
 /// parser afresh from the environment, so a later unit necessarily sees what the earlier ones did
 /// (option changes, alias definitions): whatever state the single run keeps across lines, this run
@@ -264,7 +264,11 @@ fn run_sequential(units: &[Vec<u8>], data: &[u8]) -> Outcome {
     let result: Rc<Cell<Option<i32>>> = Rc::new(Cell::new(None));
     let result2 = Rc::clone(&result);
     let state2 = Rc::clone(&state);
-    let texts: Vec<String> = units.iter().map(|u| String::from_utf8_lossy(u).into_owned()).collect();
+    // the pieces are the *lines* of the script (a piece that is not complete on its own under the
+    // environment of that moment — multi-line construct, here-document, open alias, … — is joined
+    // with the following lines by the dry parse below)
+    let whole = String::from_utf8_lossy(&units.concat()).into_owned();
+    let texts: Vec<String> = whole.split_inclusive('\n').map(|l| l.to_string()).collect();
     let data = data.to_vec();
     let main = async move {
         let mut env = env;
@@ -567,7 +571,7 @@ fn oracle(c: &Case, script: &[u8], obs: &Obs) -> String {
         Feed::Str => {
             // (5) later lines see what earlier lines did: the same units fed one at a time through
             // separate read-eval loops on the same environment give the same observation
-            if c.units.iter().all(|u| !u.is_empty()) {
+            {
                 let seq = obs_of(run_sequential(&c.units, &c.data));
                 if seq.stuck {
                     return "FAIL:stuck-in-piecewise-run".into();
